@@ -596,18 +596,25 @@ def reuse_stats(hists, results) -> Dict[str, int]:
 
 
 def replay_findings(rep: Report, prop: str, model_ok: bool, accept_all: Dict[str, str]):
-    """Step 5: replay the witnesses of the listed findings of `prop`."""
-    for f in core.load_findings(prop):
-        w = json.loads((core.VERIF / f.witness).read_text())
-        hists = [w["case"]]
-        tbl, results = run_jobs([("hist", h) for h in hists])
-        hd = header(tbl, spec_only=not model_ok)
-        steps = results[0].get("steps", [])
+    """Step 5: replay the witnesses of the listed findings of `prop` (one worker, one Coq evaluation)."""
+    fs = core.load_findings(prop)
+    if not fs:
+        return
+    ws = [json.loads((core.VERIF / f.witness).read_text()) for f in fs]
+    tbl, results = run_jobs([("hist", w["case"]) for w in ws])
+    hd = header(tbl, spec_only=not model_ok)
+    pairs, ok_idx = [], []
+    for n, (w, r) in enumerate(zip(ws, results)):
+        steps = r.get("steps", [])
         if not steps or "exc" in steps[-1]:
-            rep.violation({"kind": "counterexample", "case": w["case"], "impl": results[0], "finding": f.fid,
+            rep.violation({"kind": "counterexample", "case": w["case"], "impl": r, "finding": fs[n].fid,
                            "python": snippet(w["case"]), "explanation": "witness of a listed finding now raises"})
             continue
-        code = core.coq_codes(prop, hd, "list op", "code", [(hist_term(hists[0], steps), impl_sx(steps))], tag="kf")[0]
+        pairs.append((hist_term(w["case"], steps), impl_sx(steps)))
+        ok_idx.append(n)
+    codes = core.coq_codes(prop, hd, "list op", "code", pairs, tag="kf") if pairs else []
+    for n, code in zip(ok_idx, codes):
+        f, w = fs[n], ws[n]
         rep.count("kf:" + f.fid, True)
         if f.kind == "open":
             if code == 2 or (code == 3 and not model_ok):
@@ -615,18 +622,19 @@ def replay_findings(rep: Report, prop: str, model_ok: bool, accept_all: Dict[str
             elif code == 0:
                 rep.note(f"finding {f.fid}: witness no longer fails (appears repaired)")
             else:
-                rep.violation({"kind": "counterexample", "case": w["case"], "impl": results[0], "finding": f.fid, "code": code,
+                rep.violation({"kind": "counterexample", "case": w["case"], "impl": results[n], "finding": f.fid, "code": code,
                                "python": snippet(w["case"]),
                                "explanation": "witness of a listed finding fails differently from what the model predicts"})
-        else:
-            if code != 0:
-                rep.violation({"kind": "counterexample", "case": w["case"], "impl": results[0], "finding": f.fid, "code": code,
-                               "python": snippet(w["case"]),
-                               "explanation": f"regression: the defect repaired by {f.commit} is back"})
+        elif code != 0:
+            rep.violation({"kind": "counterexample", "case": w["case"], "impl": results[n], "finding": f.fid, "code": code,
+                           "python": snippet(w["case"]),
+                           "explanation": f"regression: the defect repaired by {f.commit} is back"})
 
 
 ACCEPT = {"K_clear": "C13-d", "K_stale": "C13-b", "K_pin": "C13-c"}
 TRUSTED = [
+    "translator/t_registry.py (fail-closed statement-idiom translator: symbol_graph.py, utils.recursive_subclasses, predicate.Symbol.__new__, "
+    "entity let-domain, hashed_data.__iter__, symbolic evaluate, singleton -> Gen/Registry.v) and its idiom table Onto/RegistryIdioms.v",
     "hand-written model of symbol_graph.py / recursive_subclasses / Symbol.__new__ / let(T,None)+evaluate (Onto/Registry.v), "
     "tied by differential execution on histories with the observed addresses and node indices fed to the model",
     "harness/c13.py: implementation driver (worker subprocesses, weak-reference census, read-only inspection of "
@@ -639,6 +647,25 @@ ASSUME = [
     "rustworkx: add_node returns an index not currently in use; remove_node drops the incident edges",
     "a query result is consumed completely (list(q.evaluate())) before the next operation",
 ]
+
+
+def proof_steps(rep: Report, prop: str) -> bool:
+    """Steps 1-3 (regenerate Gen/Registry.v from the source, build the proofs, Print Assumptions) and the build of the
+    executable model used by the correspondence.  Returns whether the model can be evaluated (it does not depend on the
+    generated file, so a refused translation or a broken proof still leaves the model-vs-implementation search running)."""
+    from translator import t_registry
+    core.standard_proof_steps(
+        rep, prop, [f"Props/{prop}.vo"],
+        regen=[("Gen/Registry.v", lambda: t_registry.translate(str(core.REPO)), core.COQ / "Gen" / "Registry.v")])
+    ok, log = core.coq_make(["Onto/RegistryRun.vo"])
+    rep.oblige("build:Onto/RegistryRun.vo", ok, "" if ok else core.first_error(log))
+    if rep.tier == "thorough" and not rep.open_obligations():
+        # second, independent checker on the compiled theorems
+        rc, out = core.sh(["timeout", "900", "coqchk", "-silent", "-o", "-Q", ".", "Krrood", f"Krrood.Props.{prop}"],
+                          cwd=core.COQ, timeout=930)
+        clean = rc == 0 and "* Axioms: <none>" in out
+        rep.oblige(f"coqchk:Props/{prop}.vo", clean, "" if clean else out[-400:])
+    return ok
 
 
 def gen_cases(tier: str, seed: int, mix: Sequence[Tuple[str, int]], depth: int) -> List[List[list]]:
@@ -672,7 +699,7 @@ def run(tier: str, seed: int, replay=None) -> int:
                 "distinct = distinct history")
     ok_spec, log = core.coq_make(["Base/Sx.vo", "Onto/RegistrySpec.vo", "Onto/RegistrySpecRun.vo"])
     rep.oblige("build:spec", ok_spec, "" if ok_spec else core.first_error(log))
-    model_ok = core.standard_proof_steps(rep, PROP, ["Props/C13.vo", "Onto/RegistryRun.vo"])
+    model_ok = proof_steps(rep, PROP)
     if replay:
         hists = [replay["case"]]
     else:
